@@ -7,6 +7,7 @@ import (
 	"fmt"
 	"os"
 	"path/filepath"
+	"time"
 
 	"verifharness/internal/crashfs"
 	"verifharness/internal/engx"
@@ -48,13 +49,22 @@ func dumpWalEvents(args []string) int {
 		switch st.A {
 		case "Write":
 			_ = e.Write([]engx.Pt{r.point(st.K, st.W)})
-			e.IndexFlush()
 		case "Flush":
-			e.Flush()
+			if st.Kind == "auto" {
+				if err := walAutoFlush(e, 10*time.Second); err != nil {
+					fmt.Println(err)
+				}
+			} else {
+				e.Flush()
+			}
+		case "Sleep":
+			time.Sleep(time.Duration(st.W) * time.Millisecond)
 		}
 		for _, ev := range rec.Events[mark:] {
 			if ev.N > 0 {
 				fmt.Printf("   %3d %-8s %-5s %s %s\n", ev.N, ev.Op, ev.Class, ev.Path, ev.To)
+			} else if ev.Class == "index" && len(args) > 1 {
+				fmt.Printf("   x%-3d %-8s %-5s %s %s\n", ev.X, ev.Op, ev.Class, ev.Path, ev.To)
 			}
 		}
 	}
